@@ -1,0 +1,5 @@
+//go:build !verif
+
+package zlint
+
+func verifPoint(point string, name string) {}
